@@ -91,7 +91,7 @@ def build_random(rng, n_blocks=12, n_inputs=3, max_w=8, seq=True, gated=False, s
             src = pick(); d = new(q.getWidth()); recipe.append(('buf', lambda src=src, d=d, i=i: py4hw.Buf(hw, 'rb%d' % i, src, d)))
         en = pick1() if rng.random() < .5 else None
         rs = pick1() if rng.random() < .5 else None
-        rv = rng.choice([None, 0]) if plain_reset else rng.choice([None, 0, 1, 2 ** q.getWidth() - 1, rng.randrange(1 << q.getWidth()), -1, 2 ** q.getWidth(), 2 ** q.getWidth() + 5, -(2 ** q.getWidth()) - 3])
+        rv = rng.choice([None, 0]) if plain_reset is True else rng.choice([None, 0, 1, 2 ** q.getWidth() - 1, rng.randrange(1 << q.getWidth()), 2 ** q.getWidth() + 5]) if plain_reset == 'nonneg' else rng.choice([None, 0, 1, 2 ** q.getWidth() - 1, rng.randrange(1 << q.getWidth()), -1, 2 ** q.getWidth(), 2 ** q.getWidth() + 5, -(2 ** q.getWidth()) - 3])
         recipe.append(('reg', lambda i=i, d=d, q=q, en=en, rs=rs, rv=rv: py4hw.Reg(hw, 'r%d' % i, d, q, enable=en, reset=rs, reset_value=rv)))
     for i, ow in enumerate(out_wires or []):
         src = rng.choice([w for w in pool if w not in ins] or pool)
